@@ -75,9 +75,114 @@ def is_numlike(x):
     return is_intlike(x) or is_floatlike(x)
 
 
+def linearize(t):
+    """t (z3 Int term) as const + sum coeff*atom; atoms are maximal non-linear subterms."""
+    const = 0
+    atoms = {}
+
+    def add_atom(a, c):
+        if c == 0:
+            return
+        k = a.get_id()
+        if k in atoms:
+            atoms[k] = (a, atoms[k][1] + c)
+        else:
+            atoms[k] = (a, c)
+
+    def go(t, c):
+        nonlocal const
+        if z3.is_int_value(t):
+            const += c * t.as_long()
+            return
+        if z3.is_app(t):
+            k = t.decl().kind()
+            ch = t.children()
+            if k == z3.Z3_OP_ADD:
+                for x in ch:
+                    go(x, c)
+                return
+            if k == z3.Z3_OP_SUB:
+                go(ch[0], c)
+                for x in ch[1:]:
+                    go(x, -c)
+                return
+            if k == z3.Z3_OP_UMINUS:
+                go(ch[0], -c)
+                return
+            if k == z3.Z3_OP_MUL:
+                coef = 1
+                rest = []
+                for x in ch:
+                    if z3.is_int_value(x):
+                        coef *= x.as_long()
+                    else:
+                        rest.append(x)
+                if not rest:
+                    const += c * coef
+                    return
+                if len(rest) == 1:
+                    go(rest[0], c * coef)
+                    return
+        add_atom(t, c)
+    go(t, 1)
+    return const, [v for v in atoms.values() if v[1] != 0]
+
+
+def _lin_term(const, atoms):
+    t = None
+    for a, c in atoms:
+        m = a if c == 1 else (c * a)
+        t = m if t is None else t + m
+    if t is None:
+        return z3.IntVal(const)
+    return t + const if const else t
+
+
+def const_div(a, k):
+    """floor(a / k) for a positive constant k, pulling exact multiples out of the dividend:
+    floor((k*A + B)/k) = A + floor(B/k), and cancelling a common factor of B and k."""
+    import math as _m
+    const, atoms = linearize(a)
+    qa = [(x, c // k) for x, c in atoms if c // k != 0 and c % k == 0]
+    ra = [(x, c) for x, c in atoms if c % k != 0]
+    if not ra:
+        q0, _ = divmod(const, k)
+        return _lin_term(q0, qa), None
+    qc, rc = divmod(const, k)
+    # remainder part: rc + sum c*x with no coefficient divisible by k
+    g = k
+    for _, c in ra:
+        g = _m.gcd(g, c)
+    rem_lin_const = rc
+    if g > 1:
+        # floor((g*B' + rc)/ (g*k')) : only cancel when rc is a multiple of g too
+        if rc % g == 0:
+            inner = _lin_term(rc // g, [(x, c // g) for x, c in ra])
+            kk = k // g
+        else:
+            inner = _lin_term(rc, ra)
+            kk = k
+    else:
+        inner = _lin_term(rc, ra)
+        kk = k
+    d = inner / kk if kk != 1 else inner
+    return _lin_term(qc, qa) + d, (inner, kk)
+
+
 def fdiv(a, b):
     """Python floor division on z3 Int terms (b != 0)."""
+    if z3.is_int_value(b):
+        k = b.as_long()
+        if k > 0:
+            return z3.simplify(const_div(a, k)[0])
+        if k < 0:
+            return z3.simplify(const_div(-a, -k)[0])
     return z3.If(b > 0, a / b, (-a) / (-b))
+
+
+def fmod(a, b):
+    """Python modulo on z3 Int terms (b != 0)."""
+    return z3.simplify(a - b * fdiv(a, b))
 
 
 def zabs(z):
@@ -87,10 +192,95 @@ def zabs(z):
 _FL = z3.Function('fl', z3.RealSort(), z3.RealSort())
 
 
+def interval(t, bounds, depth=0):
+    """Conservative interval (lo, hi) of a z3 arithmetic term as Fractions / None for unbounded, from the variable
+    bounds recorded by the engine."""
+    from fractions import Fraction as F
+    INF = None
+    if z3.is_int_value(t):
+        v = F(t.as_long())
+        return v, v
+    if z3.is_rational_value(t):
+        v = F(t.numerator_as_long(), t.denominator_as_long())
+        return v, v
+    if depth > 60 or not z3.is_app(t):
+        return INF, INF
+    k = t.decl().kind()
+    ch = t.children()
+    if k == z3.Z3_OP_UNINTERPRETED and not ch:
+        b = bounds.get(str(t))
+        if b is None:
+            return INF, INF
+        return (F(b[0]) if b[0] is not None else INF), (F(b[1]) if b[1] is not None else INF)
+    if k == z3.Z3_OP_TO_REAL or k == z3.Z3_OP_TO_INT:
+        lo, hi = interval(ch[0], bounds, depth + 1)
+        if k == z3.Z3_OP_TO_INT:
+            import math as _m
+            return (F(_m.floor(lo)) if lo is not INF else INF), (F(_m.floor(hi)) if hi is not INF else INF)
+        return lo, hi
+    if k == z3.Z3_OP_ADD:
+        lo, hi = F(0), F(0)
+        for c in ch:
+            a, b = interval(c, bounds, depth + 1)
+            lo = INF if (lo is INF or a is INF) else lo + a
+            hi = INF if (hi is INF or b is INF) else hi + b
+        return lo, hi
+    if k == z3.Z3_OP_SUB:
+        lo, hi = interval(ch[0], bounds, depth + 1)
+        for c in ch[1:]:
+            a, b = interval(c, bounds, depth + 1)
+            lo = INF if (lo is INF or b is INF) else lo - b
+            hi = INF if (hi is INF or a is INF) else hi - a
+        return lo, hi
+    if k == z3.Z3_OP_UMINUS:
+        a, b = interval(ch[0], bounds, depth + 1)
+        return (INF if b is INF else -b), (INF if a is INF else -a)
+    if k == z3.Z3_OP_MUL:
+        lo, hi = F(1), F(1)
+        for c in ch:
+            a, b = interval(c, bounds, depth + 1)
+            if a is INF or b is INF or lo is INF or hi is INF:
+                return INF, INF
+            cands = [lo * a, lo * b, hi * a, hi * b]
+            lo, hi = min(cands), max(cands)
+        return lo, hi
+    if k in (z3.Z3_OP_DIV, z3.Z3_OP_IDIV):
+        a, b = interval(ch[0], bounds, depth + 1)
+        c, d = interval(ch[1], bounds, depth + 1)
+        if a is INF or b is INF or c is INF or d is INF or c != d or c == 0:
+            return INF, INF
+        x, y = a / c, b / c
+        lo, hi = min(x, y), max(x, y)
+        if k == z3.Z3_OP_IDIV:
+            import math as _m
+            return F(_m.floor(lo)), F(_m.floor(hi))
+        return lo, hi
+    if k == z3.Z3_OP_MOD:
+        c, d = interval(ch[1], bounds, depth + 1)
+        if c is not INF and c == d and c > 0:
+            return F(0), c - 1
+        return INF, INF
+    if k == z3.Z3_OP_ITE:
+        a, b = interval(ch[1], bounds, depth + 1)
+        c, d = interval(ch[2], bounds, depth + 1)
+        lo = INF if (a is INF or c is INF) else min(a, c)
+        hi = INF if (b is INF or d is INF) else max(b, d)
+        return lo, hi
+    if k == z3.Z3_OP_UNINTERPRETED and t.decl().name() == 'fl':
+        a, b = interval(ch[0], bounds, depth + 1)
+        if a is INF or b is INF:
+            return INF, INF
+        w = max(abs(a), abs(b)) / 2 ** 52
+        return a - w, b + w
+    return INF, INF
+
+
 def fl_of(q):
-    """The double nearest to the real q, as an uninterpreted function application plus the standard
-    model |fl(q)-q| <= 2^-53 |q| (sign preserved).  Every IEEE double operation in the normal range
-    satisfies it, so an unsat answer holds for real doubles; sat answers are candidates (replayed)."""
+    """The double nearest to the real q, as an uninterpreted function application plus a sound error model.
+    When interval analysis bounds |q| <= M (from the bounds of the inputs) the model is the absolute bound
+    |fl(q)-q| <= 2^-53 M (two linear inequalities); otherwise the relative bound |fl(q)-q| <= 2^-53 |q|.
+    Every IEEE double operation in the normal range satisfies both, so an unsat answer holds for real doubles;
+    sat answers are candidates (replayed on the real code)."""
     e = E.cur()
     q = z3.simplify(q)
     key = q.get_id()
@@ -98,9 +288,19 @@ def fl_of(q):
     if hit is not None:
         return hit
     v = _FL(q)
-    e.add(z3.If(q >= 0,
-                z3.And(v >= q * (1 - EPS), v <= q * (1 + EPS)),
-                z3.And(v <= q * (1 - EPS), v >= q * (1 + EPS))))
+    lo, hi = interval(q, e.bounds)
+    if lo is not None and hi is not None:
+        M = max(abs(lo), abs(hi))
+        err = z3.RealVal(str(M)) * EPS if M else z3.RealVal(0)
+        e.add(v - q <= err, q - v <= err)
+        if lo >= 0:
+            e.add(v >= 0)
+        if hi <= 0:
+            e.add(v <= 0)
+    else:
+        e.add(z3.If(q >= 0,
+                    z3.And(v >= q * (1 - EPS), v <= q * (1 + EPS)),
+                    z3.And(v <= q * (1 - EPS), v >= q * (1 + EPS))))
     e.uf_cache[key] = v
     return v
 
